@@ -21,6 +21,7 @@ type webTransport struct {
 
 	session *types.WebTransportConn
 	mu      sync.Mutex
+	start   sync.Once
 }
 
 // WebTransport transport
@@ -32,7 +33,18 @@ func MakeWebTransport() WebTransport {
 	return w
 }
 
+// The transport reads its stream at once, as it always did; see
+// [NewDeferredWebTransport].
 func NewWebTransport(ctx *types.HttpContext) WebTransport {
+	w := NewDeferredWebTransport(ctx)
+
+	w.Start()
+
+	return w
+}
+
+// A WebTransport transport that does not read before Start is called.
+func NewDeferredWebTransport(ctx *types.HttpContext) WebTransport {
 	w := MakeWebTransport()
 
 	w.Construct(ctx)
@@ -52,10 +64,14 @@ func (w *webTransport) Construct(ctx *types.HttpContext) {
 		w.OnClose()
 	})
 
-	go w.message()
-
 	w.SetWritable(true)
 	w.SetPerMessageDeflate(nil)
+}
+
+// Starts reading the connection. The consumer calls this once its listeners
+// are attached; later calls do nothing.
+func (w *webTransport) Start() {
+	w.start.Do(func() { go w.message() })
 }
 
 // Transport name
